@@ -226,6 +226,13 @@ fn check_type<T: Jetty>(tname: &str, ctx: &Ctx, shard: usize, nshards: usize, ti
                 continue;
             }
         }
+        // long dynamically sized parts (more than 1000 entries): nothing may be elided
+        if ci % 1000 == 7 {
+            let long = if rng.bool() { T::shape((1001 + rng.below(700), 1)) } else { T::shape((1, 1001 + rng.below(700))) };
+            if long.nslots() > 1000 && long.nslots() < 6000 && !nested_matrix(&long) {
+                shape = long;
+            }
+        }
         let n = shape.nslots();
         // distinct value per storage slot (so matrices are not symmetric); some whole groups zero
         let mut slots: Vec<f64> = (0..n).map(|_| exotic(&mut rng, T::IS_F32)).collect();
@@ -246,7 +253,11 @@ fn check_type<T: Jetty>(tname: &str, ctx: &Ctx, shard: usize, nshards: usize, ti
         let x: T = build_with(&shape, &slots, &mut MaskAbsent::new(mask));
         let (want, presence) = parts_presence(&x, &shape);
         let case = || json!({"type": tname, "shape": shape.name(), "parts": floats(&slots), "parts_hex": hexes(&slots), "absent_mask": mask});
-        acc.observe(&format!("{}|{}|{}", tname, shape.name(), presence_key(&presence)), true);
+        if n > 1000 {
+            acc.observe(&format!("{}|long({})|{}", tname, if n > 1500 { ">1500" } else { "1001..1500" }, if presence.iter().all(|p| *p) { "all-present" } else { "some-absent" }), true);
+        } else {
+            acc.observe(&format!("{}|{}|{}", tname, shape.name(), presence_key(&presence)), true);
+        }
         let text = match guarded(|| x.to_string()) {
             Ok(t) => t,
             Err(m) => {
@@ -323,7 +334,10 @@ fn main() {
     let types: std::collections::BTreeSet<String> = acc.classes.keys().map(|k| k.split('|').next().unwrap().to_string()).collect();
     let mut extra = serde_json::Map::new();
     extra.insert("types_observed".into(), json!(types));
-    let required = vec![("at least 50 types observed".to_string(), types.len() >= 50)];
+    let required = vec![
+        ("at least 50 types observed".to_string(), types.len() >= 50),
+        ("dynamically sized parts with more than 1000 entries observed on at least 3 types".to_string(), acc.classes.keys().filter(|k| k.contains("|long(")).filter_map(|k| k.split('|').next()).collect::<std::collections::BTreeSet<_>>().len() >= 3),
+    ];
     ctx.finish(
         acc,
         "class = (type, shape incl. run-time dimensions 0..4, presence pattern of the optional parts); every class is non-trivial: every storage slot carries its own finite value (negative, -0.0, subnormal, 1e+-300, integers, random bits), matrices are not symmetric, optional all-zero parts are absent according to a random mask.",
